@@ -684,6 +684,73 @@ def check_odeint(chk, project, tdir, neq):
         chk.extra["transitions"] = chk.extra.get("transitions", 0) + 2
 
 
+# --------------------------------------------------------------------------- Python wrapper
+def check_pywrap(chk, project, tdir):
+    """PyWrapSolve (the `Solve` a Python user calls) must raise exactly when Solve returns FAIL"""
+    ll, err = project.compile_ir(tdir, "naunet.cpp", extra_flags=("-DPYMODULE", "-DPYMODNAME=pynaunet"), tag="py")
+    if ll is None:
+        chk.unknown(f"{tdir}:PyWrapSolve", "naunet.cpp does not lower with -DPYMODULE: " + err[-200:])
+        return
+    chk.functions.add(f"{tdir}:Naunet::PyWrapSolve")
+    for want in (SUCCESS, FAIL):
+        st_ = H.base_stubs()
+        st_["__cxa_throw"] = lambda M_, st, a: (st, Throw(a[0], 1))
+        st_["__cxa_allocate_exception"] = lambda M_, st, a: (st, M_.new_obj(st, 64))
+        st_["__cxa_free_exception"] = lambda M_, st, a: (st, None)
+        st_["_ZNSt13runtime_errorC1EPKc"] = lambda M_, st, a: (st, None)
+        M = Machine([ll], st_)
+        dem = H.demangle(sorted(M.funcs))
+        wname = next(n for n, d in dem.items() if d.startswith("Naunet::PyWrapSolve("))
+        sname = next(n for n, d in dem.items() if d.startswith("Naunet::Solve("))
+        called = []
+
+        def solve(M_, st, a, want=want):
+            called.append(a)
+            return st, want
+
+        M.stubs[sname] = solve
+        extdem = {}
+        orig = M.call
+
+        def call(st, name, args, argtys=None, _orig=orig, _M=M):
+            if name not in _M.stubs and name not in _M.funcs:
+                d_ = extdem.get(name) or extdem.setdefault(name, H.demangle([name])[name])
+                if d_.startswith("pybind11::"):
+                    if "::request()" in d_:
+                        # sret buffer_info: ptr field = the array's data
+                        def req(M__, st_, a_):
+                            st_.store(a_[0].obj, a_[0].off, Ptr("ab", 0))
+                            return st_, None
+
+                        _M.stubs[name] = req
+                    else:
+                        _M.stubs[name] = lambda M__, st_, a_: (st_, None)
+            return _orig(st, name, args, argtys)
+
+        M.call = call
+        st = State()
+        for o, sz in (("ret", 64), ("this", 256), ("arr", 64), ("ab", 64), ("udata", 256)):
+            st.size[o] = sz
+        try:
+            _, ret = M.run_function(wname, st, [Ptr("ret", 0), Ptr("this", 0), Ptr("arr", 0), z3.Real("dt"), Ptr("udata", 0)])
+        except Inconclusive as e:
+            chk.unknown(f"{tdir}:PyWrapSolve", e)
+            return
+        threw = isinstance(ret, Throw)
+        name = f"{tdir}:PyWrapSolve:Solve-returns-{'FAIL' if want else 'SUCCESS'}"
+        if not called:
+            chk.violation(name + ":no-call", "PyWrapSolve never calls Solve", {"target": tdir})
+        elif threw == (want == FAIL):
+            chk.ok(name)
+            chk.nontrivial.add(name)
+        else:
+            chk.violation(f"{tdir}:PyWrapSolve:{'swallows-failure' if want else 'raises-on-success'}",
+                          f"the Python-level Solve of the {tdir} back-end {'returns normally although Solve reported FAIL: the failure is never seen by the caller' if want else 'raises although Solve succeeded'}",
+                          {"target": tdir, "solve_returns": want, "raised": threw, "replay_note": "control flow is concrete in the compiled IR of PyWrapSolve for a given return value of Solve"})
+        chk.extra["states"] = chk.extra.get("states", 0) + 1
+        chk.extra["transitions"] = chk.extra.get("transitions", 0) + 1
+
+
 # --------------------------------------------------------------------------- native replay with a scripted integrator
 MOCK = r"""
 #include <stdio.h>
@@ -851,7 +918,8 @@ def main(pid, tier):
         "log10/pow are uninterpreted with pow(10,log10 x)=x for x>0, pow>0 and strict monotonicity at the exponents used; IEEE rounding of that round trip is outside the claim",
         "real arithmetic for times and abundances",
         "inductive invariant: c<0, 0<d<=dt_init, ab_init=y0, and for c in [-4,-1]: ab = y0+(dt_init-d)+tau, 0<=tau<d, t_cur=tau",
-        "cusparse Solve has no recovery ladder (template says so) and is outside the claim; PyWrapSolve wrappers are outside the encoded set",
+        "cusparse Solve has no recovery ladder (template says so) and is outside the claim",
+        "PyWrapSolve is compiled with -DPYMODULE against a declaration-only pybind11 shim; Solve is stubbed to return SUCCESS / FAIL",
     ]
     spec = {"reactions": [{"reactants": ["H2"], "products": ["H", "H"], "alpha": 1.0, "reaction_type": 100}], "network": {},
             "targets": [dict(proj.TARGETS["dense"]), dict(proj.TARGETS["sparse"]), dict(proj.TARGETS["odeint"])]}
@@ -875,6 +943,11 @@ def main(pid, tier):
         check_odeint(chk, p, "odeint_rosenbrock4", p.macros("odeint_rosenbrock4")["NEQUATIONS"])
     except Inconclusive as e:
         chk.unknown("odeint:encode", e)
+    for tdir in ("cvode_dense", "cvode_sparse", "odeint_rosenbrock4"):
+        try:
+            check_pywrap(chk, p, tdir)
+        except Exception as e:
+            chk.unknown(f"{tdir}:PyWrapSolve", f"{type(e).__name__}: {e}")
     chk.extra["repo_fingerprint"] = proj.repo_fingerprint()
     chk.extra["stubs"] = H.STUB_DOC + ["CVode/CVodeReInit/CVodeSet*: nondeterministic integrator (see assumptions)", "integrate_adaptive: scenario 'returns' (state advanced by dt) / 'throws std::runtime_error'", "__cxa_throw: modelled as an exceptional return (landing pads interpreted)"]
     return chk.finish(rule="states = merged symbolic states (one per symbolic branch join) + 1 per run; transitions = integrator outcomes distinguished (3 classes per CVode call site, 2 per re-init/setup call); one obligation = one z3 query")
